@@ -75,8 +75,29 @@ fn one(src: &str, stream: &str) -> Option<Case> {
     if before.contains("true (its") { c.tags.push("logic-assertion".into()); }
     if before.contains("(c (") { c.tags.push("named-constraint".into()); }
     c.tags.push(if f1.trim_end() == src.trim_end() { "already-formatted".into() } else { "reformatted".into() });
+    // hypothesis coverage of `parse_format_partial` (roundTrips): no operand of equal precedence on the regrouping side
+    let mut slots: Vec<&rooc::PreExp> = vec![&pm.objective().rhs];
+    for k in pm.constraints() { slots.push(&k.lhs); slots.push(&k.rhs); }
+    c.tags.push(if slots.iter().all(|e| round_trips(e)) { "in-region:parse_format_partial".into() } else { "outside-region:parse_format_partial".into() });
     c.nontrivial = before.contains("(bin ") || before.contains("(un ");
     Some(c)
+}
+
+/// mirror of the Lean predicate `roundTrips` (tagging only): the printer emits every parenthesis the parser needs
+fn round_trips(e: &rooc::PreExp) -> bool {
+    use rooc::PreExp::*;
+    match e {
+        BinaryOperation(p, l, r) => {
+            let lbad = matches!(&**l, BinaryOperation(c, _, _) if c.precedence() == p.precedence() && !c.is_left_associative());
+            let rbad = matches!(&**r, BinaryOperation(c, _, _) if c.precedence() == p.precedence() && p.is_left_associative());
+            !lbad && !rbad && round_trips(l) && round_trips(r)
+        }
+        UnaryOperation(_, x) => round_trips(x),
+        FunctionCall(_, f) => f.args.iter().all(round_trips),
+        BlockFunction(b) => b.exps.iter().all(round_trips),
+        BlockScopedFunction(b) => round_trips(&b.exp),
+        _ => true,
+    }
 }
 
 const OPS: [&str; 9] = ["+", "-", "*", "/", "and", "or", "xor", "implies", "iff"];
